@@ -647,6 +647,8 @@ func (r *Runner) resolveBinaryExpression(ctx context.Context, expr *BinaryExpres
 		return r.resolveAmpersandAmpersandBinaryExpression(v1, v2)
 	case SK_BarBar: // ||
 		return r.resolveBarBarBinaryExpression(v1, v2)
+	case SK_QuestionQuestion: // ??
+		return r.resolveQuestionQuestionBinaryExpression(v1, v2)
 	case SK_Comma:
 		return r.resolveCommaBinaryExpression(v1, v2)
 	}
@@ -839,6 +841,13 @@ func (r *Runner) resolveBarBarBinaryExpression(v1, v2 interface{}) (interface{},
 	} else {
 		return v1, nil
 	}
+}
+
+func (r *Runner) resolveQuestionQuestionBinaryExpression(v1, v2 interface{}) (interface{}, error) {
+	if IsNull(v1) {
+		return v2, nil
+	}
+	return v1, nil
 }
 
 func (r *Runner) resolveCommaBinaryExpression(_, v2 interface{}) (interface{}, error) {
